@@ -28,10 +28,13 @@ class HexNib:
 
 
 class Dig:
-    __slots__ = ('v',)
+    """a decimal digit character: value v (int / SInt, 0..9) written in the script whose zero is code point `base`
+    (48 = ASCII; 0x660 Arabic-Indic, 0xff10 fullwidth, ... are digits for str.isdigit() and int() alike)"""
+    __slots__ = ('v', 'base')
 
-    def __init__(self, v):
-        self.v = v          # int / SInt, 0..9
+    def __init__(self, v, base=48):
+        self.v = v
+        self.base = base
 
     def __repr__(self):
         return 'Dig(%s)' % (self.v,)
@@ -67,10 +70,10 @@ def cell_eq(a, b):
     if isinstance(a, Dig) or isinstance(b, Dig):
         x, y = (a, b) if isinstance(a, Dig) else (b, a)
         if isinstance(y, Dig):
-            return core.s_eq(x.v, y.v)
+            return core.s_and(x.base == y.base, core.s_eq(x.v, y.v))
         if isinstance(y, str):
-            if y in '0123456789':
-                return core.s_eq(x.v, int(y))
+            if len(y) == 1 and 0 <= ord(y) - x.base <= 9:
+                return core.s_eq(x.v, ord(y) - x.base)
             return False
     raise Unsupported('character comparison %r / %r' % (a, b))
 
@@ -232,6 +235,45 @@ class SymStr:
 
     def lower(self):
         return SymStr([c.lower() if isinstance(c, str) else c for c in self.cells], self.kind)
+
+    def translate(self, table):
+        """str.translate: concrete characters through the table; a symbolic decimal digit becomes the digit the table maps its value
+        to (a 10-entry look-up), provided the table maps all ten ASCII digits to ASCII digits (or leaves them alone)"""
+        out = []
+        for c in self.cells:
+            if isinstance(c, str):
+                r = c.translate(table)
+                out.extend(list(r))
+                continue
+            if isinstance(c, Dig):
+                img = []
+                bases = set()
+                for d in range(10):
+                    try:
+                        m = table[c.base + d]
+                    except (KeyError, IndexError, LookupError):
+                        m = c.base + d
+                    if isinstance(m, str) and len(m) == 1:
+                        m = ord(m)
+                    if not isinstance(m, int):
+                        raise Unsupported('translate of a symbolic digit to something that is not one character')
+                    nb = c.base if 0 <= m - c.base <= 9 else (48 if 48 <= m <= 57 else None)
+                    if nb is None:
+                        raise Unsupported('translate of a symbolic digit to something that is not a digit')
+                    bases.add(nb)
+                    img.append(m - nb)
+                if len(bases) != 1:
+                    raise Unsupported('translate of a symbolic digit into two scripts')
+                nb = bases.pop()
+                if img == list(range(10)) and nb == c.base:
+                    out.append(c)
+                elif isinstance(c.v, int):
+                    out.append(Dig(img[c.v], nb))
+                else:
+                    out.append(Dig(core.STab(c.v.t, 0, img), nb))
+                continue
+            raise Unsupported('translate on a symbolic hexadecimal character')
+        return SymStr(out, self.kind)
 
     def find(self, sub, start=0):
         sub = SymStr.of(sub, self.kind)
@@ -676,9 +718,9 @@ def hex_string(name, n, digits_only=False):
     return SymStr(cells)
 
 
-def digit_string(name, n):
+def digit_string(name, n, base=48):
     ex = core.cur()
-    return SymStr([Dig(ex.fresh_int('%s_%d' % (name, i), 0, 9)) for i in range(n)])
+    return SymStr([Dig(ex.fresh_int('%s_%d' % (name, i), 0, 9), base) for i in range(n)])
 
 
 def concretize_str(s, ev):
@@ -687,7 +729,7 @@ def concretize_str(s, ev):
         if isinstance(c, str):
             out.append(c)
         elif isinstance(c, Dig):
-            out.append(str(ev(c.v)))
+            out.append(chr(c.base + ev(c.v)))
         else:
             out.append(HEXCH[ev(c.t)])
     return ''.join(out)
